@@ -98,14 +98,27 @@ def exact_obligations(e, n):
     nice = [z3.And(v >= -4, v <= 4) for v in xs + ys]
     t = z3.Real("t")
     e.rep.self_tests["linear_paths_n%d" % n] = len(res)
+    seen = {}
     for (p, segs) in res:
-        tag = "linear[n=%d,path=%s]" % (n, "".join("N" if d else "W" for d in p.decisions))
         assum = list(p.conds) + list(p.side)
+        ok_shape = segs is not None and len(segs) == n - 1
+        # Which side of the threshold each segment can be on along this path is asked of the solver (not read off the branch
+        # polarity, which a refactor may flip): N = only narrower than eps, W = only at least eps wide, B = both possible.
+        cls = []
+        if ok_shape:
+            for i in range(n - 1):
+                width = X[i + 1] - X[i]
+                rn, _, _ = e.check(assum + [width < eps], cap_ms=5000)
+                rw, _, _ = e.check(assum + [width >= eps], cap_ms=5000)
+                cls.append("N" if rw == z3.unsat else ("W" if rn == z3.unsat else "B"))
+        key = "".join(cls) if ok_shape else "".join("1" if d else "0" for d in p.decisions)
+        seen[key] = seen.get(key, 0) + 1
+        tag = "linear[n=%d,path=%s%s]" % (n, key, "" if seen[key] == 1 else "#%d" % seen[key])
         if segs is None:
             e.prove(tag + ":no-panic", "linear does not panic on %d finite knots (%s)" % (n, p.panic), [], z3.Not(z3.And(*assum)) if assum else z3.BoolVal(False),
                     dom_name="real", functions=FUNCS, witness_terms=wt, role="linear-panic", replay=replay, prefer=nice)
             continue
-        if len(segs) != n - 1 or len(p.decisions) != n - 1:
+        if len(segs) != n - 1:
             e.prove(tag + ":segments", "one segment per consecutive knot pair", assum, z3.BoolVal(False), dom_name="real", functions=FUNCS,
                     witness_terms=wt, role="linear-segments", replay=replay, prefer=nice)
             continue
@@ -116,25 +129,22 @@ def exact_obligations(e, n):
         for i in range(n - 1):
             end, cs = segs[i]
             c0, c1 = cs[0].t, cs[1].t
-            narrow = p.decisions[i]
             e.prove("%s:end%d" % (tag, i), "segment %d ends at the running maximum of the abscissae x0..x%d" % (i, i + 1),
                     assum, end.t == X[i + 1], dom_name="real", functions=FUNCS, witness_terms=wt, role="linear-end", replay=replay, prefer=nice)
             width = X[i + 1] - X[i]
-            e.prove("%s:threshold%d" % (tag, i),
-                    "segment %d took the %s branch exactly when its (forced) width is %s machine epsilon" % (
-                        i, "constant" if narrow else "sloped", "below" if narrow else "at least"),
-                    assum, (width < eps) if narrow else (width >= eps), dom_name="real", functions=FUNCS, witness_terms=wt,
-                    role="linear-threshold", replay=replay, prefer=nice)
-            if narrow:
-                e.prove("%s:constant%d" % (tag, i), "a segment narrower than machine epsilon is the constant y%d: coefficients [y%d, 0]" % (i, i),
-                        assum, z3.And(c0 == ys[i], c1 == 0), dom_name="real", functions=FUNCS, witness_terms=wt,
+            if cls[i] in ("N", "B"):
+                e.prove("%s:constant%d" % (tag, i), "whenever segment %d is narrower than machine epsilon (forced width X%d-X%d < eps) it is the "
+                        "constant y%d: coefficients [y%d, 0]" % (i, i + 1, i, i, i),
+                        assum + [width < eps], z3.And(c0 == ys[i], c1 == 0), dom_name="real", functions=FUNCS, witness_terms=wt,
                         role="linear-narrow", replay=replay, prefer=nice)
-            else:
+            if cls[i] in ("W", "B"):
                 e.prove("%s:interpolant%d" % (tag, i),
-                        "exact arithmetic: segment %d passes through its forced left knot and its right knot, and for every real t equals "
-                        "the straight-line interpolant y%d + (y%d-y%d)(t-X%d)/(X%d-X%d)" % (i, i, i + 1, i, i, i + 1, i),
-                        assum, z3.And(c0 + c1 * X[i] == ys[i], c0 + c1 * X[i + 1] == ys[i + 1],
-                                      (c0 + c1 * t) * (X[i + 1] - X[i]) == ys[i] * (X[i + 1] - X[i]) + (ys[i + 1] - ys[i]) * (t - X[i])),
+                        "exact arithmetic: whenever segment %d is at least machine epsilon wide (X%d-X%d >= eps) it passes through its forced "
+                        "left knot and its right knot, and for every real t equals the straight-line interpolant "
+                        "y%d + (y%d-y%d)(t-X%d)/(X%d-X%d)" % (i, i + 1, i, i, i + 1, i, i, i + 1, i),
+                        assum + [width >= eps],
+                        z3.And(c0 + c1 * X[i] == ys[i], c0 + c1 * X[i + 1] == ys[i + 1],
+                               (c0 + c1 * t) * (X[i + 1] - X[i]) == ys[i] * (X[i + 1] - X[i]) + (ys[i + 1] - ys[i]) * (t - X[i])),
                         dom_name="real", functions=FUNCS, witness_terms=wt, role="linear-interpolant", replay=replay, prefer=nice)
 
 
@@ -156,10 +166,26 @@ def fp_obligations(e, n):
     nice = [z3.And(z3.fpLEQ(v, z3.FPVal(4.0, F)), z3.fpGEQ(v, z3.FPVal(-4.0, F))) for v in xs + ys]
     zero = z3.FPVal(0.0, F)
     xq = z3.FP("xq", F)
+    seen = {}
+    epsv = z3.FPVal(EPS, F)
     for (p, segs) in res:
-        tag = "linear-fp[n=%d,path=%s]" % (n, "".join("N" if d else "W" for d in p.decisions))
         assum = fin + list(p.conds)
-        if segs is None or len(segs) != n - 1:
+        ok_shape = segs is not None and len(segs) == n - 1
+        cls, widths = [], []
+        if ok_shape:
+            for i in range(n - 1):
+                # forced width in terms of the returned ends (equal to the running maxima by the ":ends" obligation below), so the
+                # term is the code's own `dx` and the slope quotient below is the code's own quotient
+                left = xs[0] if i == 0 else segs[i - 1][0].t
+                w = z3.fpSub(z3.RNE(), segs[i][0].t, left)
+                widths.append(w)
+                rn, _, _ = e.check(assum + [z3.fpLT(w, epsv)], cap_ms=10000)
+                rw, _, _ = e.check(assum + [z3.fpGEQ(w, epsv)], cap_ms=10000)
+                cls.append("N" if rw == z3.unsat else ("W" if rn == z3.unsat else "B"))
+        key = "".join(cls) if ok_shape else "".join("1" if d else "0" for d in p.decisions)
+        seen[key] = seen.get(key, 0) + 1
+        tag = "linear-fp[n=%d,path=%s%s]" % (n, key, "" if seen[key] == 1 else "#%d" % seen[key])
+        if not ok_shape:
             e.prove(tag + ":shape", "no panic and n-1 segments for finite knots", fin, z3.Not(z3.And(*p.conds)) if p.conds else z3.BoolVal(False),
                     dom_name="fp", functions=FUNCS, witness_terms=wt, role="linear-panic", replay=replay, prefer=nice)
             continue
@@ -170,27 +196,25 @@ def fp_obligations(e, n):
                 goals.append(z3.fpLEQ(segs[i - 1][0].t, segs[i][0].t))
         e.prove(tag + ":ends", "bit-precise, all finite binary64 knots: every end equals the running maximum of the abscissae and ends are non-decreasing",
                 assum, z3.And(*goals), dom_name="fp", functions=FUNCS, witness_terms=wt, role="linear-end", replay=replay, prefer=nice)
-        epsv = z3.FPVal(EPS, F)
-        tg = []
         for i in range(n - 1):
-            # width in terms of the returned ends (proved equal to the running maxima by the obligation above)
-            left = xs[0] if i == 0 else segs[i - 1][0].t
-            w = z3.fpSub(z3.RNE(), segs[i][0].t, left)
-            tg.append(z3.fpLT(w, epsv) if p.decisions[i] else z3.fpGEQ(w, epsv))
-        e.prove(tag + ":threshold", "bit-precise: a segment is built constant exactly when its forced width end[i]-end[i-1] (binary64 subtraction; "
-                "end[-1]=x0; ends are the running maxima by the previous obligation) is below machine epsilon, sloped when it is at least "
-                "machine epsilon", assum, z3.And(*tg), dom_name="fp", functions=FUNCS,
-                witness_terms=wt, role="linear-threshold", replay=replay, prefer=nice)
-        for i in range(n - 1):
-            if not p.decisions[i]:
-                continue
             c0, c1 = segs[i][1][0], segs[i][1][1]
-            val = dom.fma(c1, dom.sym("xq"), c0)  # Poly1::evaluate is c1.mul_add(x, c0) -- checked against the MIR by C01
-            e.prove("%s:constant%d" % (tag, i),
-                    "bit-precise: a segment narrower than machine epsilon has coefficients [y%d, 0] and evaluates to y%d at every finite x" % (i, i),
-                    assum + [z3.Not(z3.fpIsNaN(xq)), z3.Not(z3.fpIsInf(xq))],
-                    z3.And(z3.fpEQ(c0.t, ys[i]), z3.fpEQ(c1.t, zero), z3.fpEQ(val.t, ys[i])),
-                    dom_name="fp", functions=FUNCS, witness_terms=wt, role="linear-narrow", replay=replay, prefer=nice)
+            if cls[i] in ("N", "B"):
+                val = dom.fma(c1, dom.sym("xq"), c0)  # Poly1::evaluate is c1.mul_add(x, c0) -- checked against the MIR by C01
+                e.prove("%s:constant%d" % (tag, i),
+                        "bit-precise: whenever the forced width end[%d]-end[%d] (binary64 subtraction; end[-1]=x0) is below machine epsilon, "
+                        "segment %d has coefficients [y%d, 0] and evaluates to y%d at every finite x" % (i, i - 1, i, i, i),
+                        assum + [z3.fpLT(widths[i], epsv), z3.Not(z3.fpIsNaN(xq)), z3.Not(z3.fpIsInf(xq))],
+                        z3.And(z3.fpEQ(c0.t, ys[i]), z3.fpEQ(c1.t, zero), z3.fpEQ(val.t, ys[i])),
+                        dom_name="fp", functions=FUNCS, witness_terms=wt, role="linear-narrow", replay=replay, prefer=nice)
+            if cls[i] in ("W", "B"):
+                # a segment at least eps wide must not be the flat one: with different ordinates its slope is not zero
+                e.prove("%s:sloped%d" % (tag, i),
+                        "bit-precise: whenever the forced width end[%d]-end[%d] is at least machine epsilon and y%d != y%d with a quotient that "
+                        "does not underflow to zero, segment %d is not constant (slope != 0)" % (i, i - 1, i, i + 1, i),
+                        assum + [z3.fpGEQ(widths[i], epsv), z3.Not(z3.fpEQ(ys[i], ys[i + 1])),
+                                 z3.Not(z3.fpIsZero(z3.fpDiv(z3.RNE(), z3.fpSub(z3.RNE(), ys[i + 1], ys[i]), widths[i])))],
+                        z3.Not(z3.fpEQ(c1.t, zero)),
+                        dom_name="fp", functions=FUNCS, witness_terms=wt, role="linear-threshold", replay=replay, prefer=nice)
 
 
 def rounding_left_knot(e):
